@@ -604,7 +604,7 @@ func evalMapIndexValue(node *Identifier, env *Environment) (string, Object) {
 }
 
 func evalBetween(node *BetweenExpression, env *Environment) Object {
-	val := evalBetweenOperand(node.Left, env)
+	val := evalPathOperand(node.Left, env, evalBetweenOperand)
 	if isError(val) {
 		return val
 	}
@@ -633,7 +633,7 @@ func evalBetween(node *BetweenExpression, env *Environment) Object {
 }
 
 func evalIn(node *InExpression, env *Environment) Object {
-	val := evalIdentifierOperand(node.Left, env)
+	val := evalPathOperand(node.Left, env, evalIdentifierOperand)
 	if isError(val) {
 		return val
 	}
@@ -660,6 +660,16 @@ func evalIn(node *InExpression, env *Environment) Object {
 	b := rangeObjects.Contains(val)
 
 	return nativeBoolToBooleanObject(b)
+}
+
+// evalPathOperand evaluates the left operand of BETWEEN and IN, which may be a document
+// path (a.b, a[0]) as well as a plain name; the other operands go through evalName
+func evalPathOperand(exp Expression, env *Environment, evalName func(Expression, *Environment) Object) Object {
+	if index, ok := exp.(*IndexExpression); ok {
+		return evalIndex(index, env)
+	}
+
+	return evalName(exp, env)
 }
 
 func compareRange(value, min, max Object) Object {
